@@ -28,6 +28,8 @@ type TypeOpts struct {
 	Leaves []string
 	// SkipFields allows json:"-" / bq:"-" fields.
 	SkipFields bool
+	// ShapeBoost raises the share of collections, pointers and the singled-out shapes.
+	ShapeBoost bool
 	// Wide adds the kinds outside the supported subset (C05/C15): other
 	// integer widths, unsigned, complex, Go arrays, non-string map keys,
 	// interface, chan, func, unsafe.Pointer.
@@ -106,6 +108,9 @@ func Type(t *rapid.T, o TypeOpts, depth int) spec.TypeSpec {
 	}
 	kinds := []string{"leaf", "struct", "slice", "map", "ptr", "shape"}
 	weights := []int{50, 10, 12, 9, 12, 7}
+	if o.ShapeBoost {
+		weights = []int{30, 10, 13, 13, 14, 20}
+	}
 	if o.NoMaps {
 		weights[3] = 0
 	}
